@@ -49,5 +49,16 @@ CHECKS = [
      "technique": "Lean 4 invariant proof by induction over schedules + scheduled real-thread correspondence"},
 ]
 
+CHECKS += [
+    {"property_id": "C09", "engine": "E3 codec", "design_ref": "DESIGN.md 7/C09",
+     "text": "Lean theorems, symbol size a parameter (nothing per size): Enc is additive, homogeneous and column-wise; plan replay on the slab is additive, homogeneous and acts on every byte column independently (any op list); the constraint system is linear and column-wise, hence (uniqueness) intermediate symbols and every repair packet are additive in the data and byte j of a packet at size t is the one-byte packet of byte column j. The same relations are checked on the implementation for every residue of T mod 64, plus model tie of plan replay and slab ops.",
+     "note": TRUST + "Stride/remainder errors inside kernels are C11's theorems.",
+     "technique": "Lean 4 theorems (induction over op lists, pointwise list reasoning, field laws) + metamorphic and differential correspondence"},
+    {"property_id": "C18", "engine": "E3 codec", "design_ref": "DESIGN.md 7/C18",
+     "text": "Lean theorems: a repair window equals the single-packet requests, overlapping windows agree, packet i has ESI K+s+i and internal id K'+s+i, a non-empty window is produced exactly when K+s+n <= 2^24, the object packet list is block by block ESIs 0..K-1 then K..K+r-1 with SBN = block index and all ids distinct, and two solvers meeting the solver specification yield the same encoder (plans interchangeable). Correspondence: windows at the 24-bit limit and straddling wrap points of the tuple generator, plan pairs, object lists.",
+     "note": TRUST + "solver_irrelevant assumes the block's standard system is consistent (see C06).",
+     "technique": "Lean 4 theorems (mapM/range reasoning) + differential correspondence"},
+]
+
 NOT_APPLICABLE = [{"property_id": p, "reason": PENDING} for p in
-                  ["C01", "C02", "C03", "C04", "C06", "C07", "C08", "C09", "C16", "C18"]]
+                  ["C01", "C02", "C03", "C04", "C06", "C07", "C08", "C16"]]
